@@ -47,16 +47,17 @@ End C05.
 (* ---------------------------------------------------------------- Gen/C11gen.v: BitStorage.ReadFrom / WriteTo *)
 Section C11.
 Import Gen.C11gen Gen.C05gen.
-Lemma g_bs_loop1 : forall k rng i b n v, robust (c11_BitStorage_ReadFrom_loop1 k rng i b n v).
-Proof.
-  induction k as [|k IH]; intros; cbn [c11_BitStorage_ReadFrom_loop1]; [constructor|].
-  apply robust_bind; [apply g_Long|]. intros [v2 nn]. cbv zeta. apply IH.
-Qed.
-Lemma g_bs_loop2 : forall k rng i b n v, robust (c11_BitStorage_ReadFrom_loop2 k rng i b n v).
-Proof.
-  induction k as [|k IH]; intros; cbn [c11_BitStorage_ReadFrom_loop2]; [constructor|].
-  apply robust_bind; [apply g_Long|]. intros [v2 nn]. cbv zeta. apply IH.
-Qed.
+Ltac bs_step IH :=
+  repeat first
+    [ progress cbv zeta
+    | match goal with |- robust (if ?c then _ else _) => destruct c end
+    | apply robust_bind; [apply g_Long|intros [? ?]]
+    | apply IH
+    | constructor ].
+Lemma g_bs_loop1 : forall k L i b n v, robust (c11_BitStorage_ReadFrom_loop1 L k i b n v).
+Proof. induction k as [|k IH]; intros; cbn [c11_BitStorage_ReadFrom_loop1]; [constructor|]. bs_step IH. Qed.
+Lemma g_bs_loop2 : forall k L i b n v, robust (c11_BitStorage_ReadFrom_loop2 L k i b n v).
+Proof. induction k as [|k IH]; intros; cbn [c11_BitStorage_ReadFrom_loop2]; [constructor|]. bs_step IH. Qed.
 Lemma g_BitStorage vi b : robust vi -> robust (c11_BitStorage_ReadFrom vi b).
 Proof.
   intros Hv. unfold c11_BitStorage_ReadFrom. cbv zeta. apply robust_bind; [exact Hv|]. intros [len n].
